@@ -1153,21 +1153,29 @@ structure Parsed where
   usedFuncs : List (String × List String)
   pfx : String
 
-/-- `getUsedFuncs` (depth-bounded; the call graph of accepted programs is acyclic) -/
-def getUsedFuncs (used : List (String × List String)) : Nat → String → Option (List String)
-  | 0, _ => none
-  | fuel + 1, start =>
-    match assocGet used start with
-    | none => some []
-    | some callees =>
-      let init : List String := if start.length > 0 then [start] else []
-      callees.foldlM (fun (acc : List String) c => do
-        let acc := if acc.contains c then acc else acc ++ [c]
-        let sub ← getUsedFuncs used fuel c
-        pure (sub.foldl (fun a x => if a.contains x then a else a ++ [x]) acc)) init
+/-- the local `add` of `getUsedFuncs`: append the functions that are not in the list yet -/
+def addNewFuncs (acc fs : List String) : List String :=
+  fs.foldl (fun a x => if a.contains x then a else a ++ [x]) acc
+
+/-- the work list `for i := 0; i < len(usedFuncs); i++ { add(p.usedFuncs[usedFuncs[i]]) }` -/
+def workList (used : List (String × List String)) : Nat → Nat → List String → Option (List String)
+  | 0, _, _ => none
+  | fuel + 1, i, acc =>
+    if h : i < acc.length then workList used fuel (i + 1) (addNewFuncs acc ((assocGet used acc[i]).getD []))
+    else some acc
+
+/-- every name of the call graph (the list can never get longer than this) -/
+def graphNames (used : List (String × List String)) : List String := used.flatMap fun e => e.1 :: e.2
+
+/-- `getUsedFuncs` -/
+def getUsedFuncs (used : List (String × List String)) (start : String) : Option (List String) :=
+  match assocGet used start with
+  | none => some []
+  | some callees =>
+    workList used ((graphNames used).length + 2) 0 (addNewFuncs (if start.length > 0 then [start] else []) callees)
 
 def cleanProgram (used : List (String × List String)) (body : List Stmt) : Option (List Stmt) := do
-  let keep ← getUsedFuncs used (used.length + 2) ""
+  let keep ← getUsedFuncs used ""
   pure (body.filter fun st => match st with
     | .funcDef name _ _ _ _ => keep.contains name
     | _ => true)
